@@ -53,12 +53,12 @@ PROPS = {
     },
     "C07": {
         "props_module": "NexoVerif.Props.C07",
-        "model": "M-SCHED (NexoVerif/Model/Sched.lean)",
+        "model": "M-SCHED (NexoVerif/Model/Sched.lean) and M-SEQ (NexoVerif/Model/SeqFut.lean)",
         "engines": [{"name": "sched", "rule": "random benches of 1-4 probe models (mailbox capacity 1..512), 0-2 EventSources, handler scripts that schedule (once/keyed/periodic/keyed-periodic, relative/absolute, malformed: now/past deadlines, zero periods) and cancel on their own context, scripted clock lags with/without tolerance, Scheduler requests issued from inside Clock::synchronize (queue unlocked), 5-60 driver commands (schedule on inputs and through EventSource actions, cancel incl. stale keys, step, step_until incl. past targets, process_event, queue dumps through the verif hook); single-threaded and 2/3/4/8-thread executors; the implementation's observed delivery order is passed to the model as its schedule oracle and validated (every (time, origin, target) chain in epoch order); non-trivial = at least two handler executions; distinct by hash of requests+responses"}],
-        "assumptions": ["the scheduler queue is modelled as a list sorted by (time, origin, epoch) with stable insertion (justified by C20's pq_refines_stable_sorted_list)", 'atomicity: each scheduling request and the locked part of step_to_next_bounded run under the queue mutex (std::sync::Mutex trusted); foreign requests are interleaved at the synchronisation point of a step', 'the run phase is any order of the spawned deliveries (oracle); executor correctness is C04/C05, mailbox FIFO is C02/C12', 'MonotonicTime arithmetic does not overflow (Nat nanoseconds); epochs do not reach u64::MAX', "the SeqFuture + FIFO-mailbox argument (a group's deliveries to one model are processed in group order) is the oracle-validity hypothesis; it is checked on every implementation trace (respectsChains) rather than proved from the executor"],
-        "trusted_base": ["M-SCHED is hand-written from simulation.rs / scheduler.rs; tied by the `sched` engine (responses, canonical fire/sync log, queue dumps)"],
-        "explanation": 'theorems epoch_is_scheduling_order, periodic_occurrence_scheduled_when_previous_is_pulled, pulled_in_queue_order, one_sequential_task_per_origin, groups_members_share_key',
-        "level_text": 'Lean 4 theorems over M-SCHED: epochs are assigned in acceptance order, periodic occurrences get theirs when the previous one is pulled, a step pulls actions in strictly increasing (time, origin, epoch) order and puts all same-(time, origin) actions into one sequential group; the observed delivery order of every real run is validated chain by chain by the model driver',
+        "assumptions": ["the scheduler queue is modelled as a list sorted by (time, origin, epoch) with stable insertion (justified by C20's pq_refines_stable_sorted_list)", 'atomicity: each scheduling request and the locked part of step_to_next_bounded run under the queue mutex (std::sync::Mutex trusted); foreign requests are interleaved at the synchronisation point of a step', 'the run phase is any order of the spawned deliveries (oracle); executor correctness is C04/C05, mailbox FIFO is C02/C12', 'MonotonicTime arithmetic does not overflow (Nat nanoseconds); epochs do not reach u64::MAX', "that a group's members are sent in group order is proved over M-SEQ (the loop of SeqFuture::poll, read from the source; any polling pattern and readiness of the members); that a FIFO mailbox then hands them to the model in that order is C12; the combination (oracle validity) is additionally checked on every implementation trace (respectsChains)"],
+        "trusted_base": ["M-SCHED is hand-written from simulation.rs / scheduler.rs; tied by the `sched` engine (responses, canonical fire/sync log, queue dumps)", "M-SEQ is hand-written from util/seq_futures.rs; tied by the extracted loop shape (seq_future_loop_shape) and by the scheduling-order monitor of the sched engine"],
+        "explanation": 'theorems epoch_is_scheduling_order, periodic_occurrence_scheduled_when_previous_is_pulled, pulled_in_queue_order, one_sequential_task_per_origin, groups_members_share_key, seq_future_loop_shape, group_members_complete_in_list_order',
+        "level_text": 'Lean 4 theorems over M-SCHED: epochs are assigned in acceptance order, periodic occurrences get theirs when the previous one is pulled, a step pulls actions in strictly increasing (time, origin, epoch) order and puts all same-(time, origin) actions into one sequential group; over M-SEQ: the members of a group complete in list order, each is polled only after all earlier ones completed, and Ready means all completed, for every polling pattern; the observed delivery order of every real run is validated chain by chain by the model driver',
         "level_note": "trusted: Lean kernel, propext/Classical.choice/Quot.sound, the differential harness and its canonicalisation (fires sorted per (model, origin) chain inside a time segment), Mutex; thread interleavings inside the executor are represented by the schedule oracle, not by real-thread exploration",
     },
     "C08": {
